@@ -5,8 +5,10 @@
  * illegal callback, no error callback; every output object is byte-for-byte unchanged, except the
  * outputs the function documents to zero first (then: unchanged or all-zero, and all-zero whenever the
  * call got past that memset); the context object itself is not written.
- * Nothing is replaced: with built == 0 the code behind the gate is not executed. */
-#include "pre.h"
+ * With built == 0 the code behind the gate is not executed; the curve/hash leaves are nevertheless
+ * replaced by their frame contracts so that a missing gate is reported in seconds. */
+#include "hash_log.h"
+#include "assumed.h"   /* frame contracts for the curve/hash leaves: only reached if a gate is missing, so that such a defect fails fast instead of timing out */
 #include "src/secp256k1.c"
 #include "post.h"
 
@@ -20,11 +22,26 @@ static size_t g_k;    /* ghost byte index, fixed by the harness, never assigned 
 #define GATE(ret, text)       __CPROVER_assert((ret) == 0 && g_illegal == 1 && g_error == 0, text)
 #define CTX_KEEP(text)        if (g_k < sizeof(secp256k1_context)) __CPROVER_assert(B(sctx, g_k) == B(sctx_0, g_k), text)
 #define STATIC_COPY() secp256k1_context sctx, sctx_0; \
-    sctx = *secp256k1_context_static; \
+    sctx = *secp256k1_context_static; HASHLOG_RESET(); \
     secp256k1_context_set_illegal_callback(&sctx, cb_illegal, NULL); secp256k1_context_set_error_callback(&sctx, cb_error, NULL); \
     __CPROVER_assert(sctx.ecmult_gen_ctx.built == 0, "C20 gates: a byte copy of the static context is not built"); \
     sctx_0 = sctx; g_illegal = 0; g_error = 0
 #define AGAIN() { g_illegal = 0; g_error = 0; }
+
+/* replaces secp256k1_ecmult_gen (goto-instrument --replace-calls): the very thing the gates protect.  The
+ * assume(0) ends a path that got this far, so a missing gate is reported in seconds. */
+void gate_stub_ecmult_gen(const secp256k1_ecmult_gen_context *ctx, secp256k1_gej *r, const secp256k1_scalar *a) {
+    (void)ctx; (void)r; (void)a;
+    __CPROVER_assert(0, "C20 gates: secp256k1_ecmult_gen is never reached with a context that is not built");
+    __CPROVER_assume(0);
+}
+
+/* replaces nonce_function_rfc6979_impl: only reachable behind a missing gate; keeps the retry loops cheap there */
+int gate_stub_rfc6979(const secp256k1_hash_ctx *hash_ctx, unsigned char *nonce32, const unsigned char *msg32, const unsigned char *key32, const unsigned char *algo16, void *data, unsigned int counter) {
+    int i; (void)hash_ctx; (void)msg32; (void)key32; (void)algo16; (void)data; (void)counter;
+    for (i = 0; i < 32; i++) nonce32[i] = nondet_uchar();
+    return nondet_bool() ? 1 : 0;
+}
 
 static int stub_nonce(unsigned char *nonce32, const unsigned char *msg32, const unsigned char *key32, const unsigned char *algo16, void *data, unsigned int attempt) {
     (void)nonce32; (void)msg32; (void)key32; (void)algo16; (void)data; (void)attempt;
